@@ -18,6 +18,8 @@ type miniEval struct {
 	pk      *packages.Package
 	env     map[string]int64
 	call    func(call *ast.CallExpr) (int64, bool)
+	hook    func(x ast.Expr) (int64, bool) // consulted first for every expression
+	steps   int                            // loop iterations executed (bounded)
 	unknown string
 	effects []string // assignments to anything that is not a plain variable, in program order
 }
@@ -45,6 +47,11 @@ func (e *miniEval) fail(why string) int64 {
 
 func (e *miniEval) expr(x ast.Expr) int64 {
 	x = ast.Unparen(x)
+	if e.hook != nil {
+		if v, ok := e.hook(x); ok {
+			return v
+		}
+	}
 	if cv := core.ConstOf(e.pk, x); cv != nil {
 		if n, ok := constantInt64(cv); ok {
 			return n
@@ -60,6 +67,11 @@ func (e *miniEval) expr(x ast.Expr) int64 {
 			return v
 		}
 		return e.fail("variable " + y.Name)
+	case *ast.SelectorExpr:
+		if v, ok := e.env[core.ExprStr(y)]; ok {
+			return v
+		}
+		return e.fail("selector " + core.ExprStr(y))
 	case *ast.UnaryExpr:
 		v := e.expr(y.X)
 		switch y.Op {
@@ -279,6 +291,63 @@ func (e *miniEval) run(stmts []ast.Stmt) (status int, rets []int64) {
 				out = append(out, e.expr(r))
 			}
 			return miniReturn, out
+		case *ast.ForStmt:
+			if s.Init != nil {
+				if st, r := e.run([]ast.Stmt{s.Init}); st != miniFall {
+					return st, r
+				}
+			}
+			for {
+				if e.steps++; e.steps > 100000 {
+					e.fail("loop does not end within 100000 steps")
+					return miniFall, nil
+				}
+				if s.Cond != nil && e.expr(s.Cond) == 0 {
+					break
+				}
+				if e.unknown != "" {
+					return miniFall, nil
+				}
+				st, r := e.run(s.Body.List)
+				if st == miniReturn {
+					return st, r
+				}
+				if st == miniBreak {
+					break
+				}
+				if s.Post != nil {
+					e.run([]ast.Stmt{s.Post})
+				}
+			}
+		case *ast.RangeStmt:
+			elems, ok := e.constElems(s.X)
+			if !ok {
+				e.fail("range over " + core.ExprStr(s.X))
+				break
+			}
+			stop := false
+			for i, el := range elems {
+				if e.steps++; e.steps > 100000 {
+					e.fail("loop does not end within 100000 steps")
+					return miniFall, nil
+				}
+				if id, ok := s.Key.(*ast.Ident); ok && id.Name != "_" {
+					e.env[id.Name] = int64(i)
+				}
+				if id, ok := s.Value.(*ast.Ident); ok && id.Name != "_" {
+					e.bindElem(id.Name, el)
+				}
+				st, r := e.run(s.Body.List)
+				if st == miniReturn {
+					return st, r
+				}
+				if st == miniBreak {
+					stop = true
+				}
+				if stop || e.unknown != "" {
+					break
+				}
+			}
 		case *ast.BranchStmt:
 			switch s.Tok {
 			case token.BREAK:
@@ -298,4 +367,48 @@ func (e *miniEval) run(stmts []ast.Stmt) (status int, rets []int64) {
 		}
 	}
 	return miniFall, nil
+}
+
+// constElems resolves the operand of a range statement to the elements of a constant table: a
+// composite literal, or a package-level variable initialised with one.
+func (e *miniEval) constElems(x ast.Expr) ([]ast.Expr, bool) {
+	x = ast.Unparen(x)
+	if id, ok := x.(*ast.Ident); ok {
+		if init := core.PkgVarInit(e.pk, id.Name); init != nil {
+			x = ast.Unparen(init)
+		}
+	}
+	cl, ok := x.(*ast.CompositeLit)
+	if !ok {
+		return nil, false
+	}
+	for _, el := range cl.Elts {
+		if _, isKV := el.(*ast.KeyValueExpr); isKV {
+			return nil, false
+		}
+	}
+	return cl.Elts, true
+}
+
+// bindElem binds a loop variable to a table element: a number, or a struct literal whose fields
+// become `name.field` entries.
+func (e *miniEval) bindElem(name string, el ast.Expr) {
+	cl, ok := ast.Unparen(el).(*ast.CompositeLit)
+	if !ok {
+		e.env[name] = e.expr(el)
+		return
+	}
+	var st *types.Struct
+	if t := core.TypeOf(e.pk, cl); t != nil {
+		st, _ = t.Underlying().(*types.Struct)
+	}
+	for i, f := range cl.Elts {
+		if kv, isKV := f.(*ast.KeyValueExpr); isKV {
+			e.env[name+"."+core.ExprStr(kv.Key)] = e.expr(kv.Value)
+		} else if st != nil && i < st.NumFields() {
+			e.env[name+"."+st.Field(i).Name()] = e.expr(f)
+		} else {
+			e.fail("struct element " + core.ExprStr(el))
+		}
+	}
 }
